@@ -255,7 +255,7 @@ def main(argv: List[str]) -> int:
     for sig, (run, res) in sorted(first_fail.items()):
         msg = next(v["msg"] for v in res["violations"] if v["sig"] == sig)
         # minimise: the simplest world that still shows it (empty directory, default environment)
-        simple = dict(run, state="empty", fault=None, env={"hashseed": "0", "uuid_seed": None, "ls_seed": None, "locale": None})
+        simple = dict(run, state="empty", fault=None, env={"hashseed": "0", "uuid_seed": 2, "ls_seed": None, "locale": None})
         r2 = worker_run(simple)
         if sig in {v["sig"] for v in r2.get("violations", [])}:
             run, res = simple, r2
@@ -271,7 +271,7 @@ def main(argv: List[str]) -> int:
         states[k] = states.get(k, 0) + 1
     coverage = {
         "evaluations": len(ok),
-        "distinct_nontrivial": len({r["digest"] for r in ok if by_seed[r["run_seed"]]["state"] != "empty" or by_seed[r["run_seed"]]["env"].get("uuid_seed") is not None}),
+        "distinct_nontrivial": len({r["digest"] for r in ok if by_seed[r["run_seed"]]["state"] != "empty" or by_seed[r["run_seed"]]["env"].get("hashseed") != "0"}),
         "rule": "one evaluation = one simulated world (plugin x directory state x environment) in which the generator runs on the default model from the current tree and "
                 "its output is compared with the committed file (python: ast.dump per top-level statement, both directions, bare-string statements whitespace-normalised; "
                 "rust: rustfmt then bytes). Non-trivial = non-empty initial directory or simulated uuid/hash/listing environment; distinct by digest of (plugin, state, env, fault, event log).",
